@@ -324,3 +324,33 @@ Proof. constructor.
   - intros s v s2 H. unfold read_section in H. eapply sec_loop_suffix; eauto.
   - intros c r v H r2. unfold read_section in *. cbn [rest mk] in *.
     eapply sec_loop_local; [exact H|]. rewrite app_length. lia. Qed.
+
+(* ---- a section is closed only by the exact END line of its own title ---- *)
+
+
+Definition ps_inv (st : pstate) : Prop := ps_started st = true -> ps_end st = END_ ++ ps_title st ++ DASHES.
+Lemma sec_step_inv st line st' : ps_inv st -> sec_step st line = inl st' -> ps_inv st'.
+Proof. unfold sec_step, ps_inv. intros Hi H.
+  destruct (starts_with BEGIN_ line && ends_with DASHES line).
+  - inversion H; subst. cbn. intros _. reflexivity.
+  - destruct (negb (ps_started st)) eqn:Es; [inversion H; subst; exact Hi|].
+    destruct (list_eqb line (ps_end st)); [discriminate|].
+    destruct (find_colsp line); inversion H; subst; cbn; [|exact Hi].
+    intros _. apply Hi. now apply negb_false_iff in Es. Qed.
+Lemma sec_step_ret st line v : ps_inv st -> sec_step st line = inr v -> line = END_ ++ fst v ++ DASHES.
+Proof. unfold sec_step, ps_inv. intros Hi H.
+  destruct (starts_with BEGIN_ line && ends_with DASHES line); [discriminate|].
+  destruct (negb (ps_started st)) eqn:Es; [discriminate|].
+  destruct (list_eqb line (ps_end st)) eqn:E; [|destruct (find_colsp line); discriminate].
+  inversion H; subst. cbn [fst]. apply list_eqb_eq in E. rewrite E. apply Hi. now apply negb_false_iff in Es. Qed.
+
+Theorem section_closed_only_by_its_own_end t : forall fuel st s v s', ps_inv st -> sec_loop t fuel st s = Ret v s' ->
+  exists s0, get_line t s0 = (END_ ++ fst v ++ DASHES, s').
+Proof. induction fuel as [|f IH]; intros st s v s' Hi H; cbn [sec_loop] in H; [discriminate|].
+  destruct (get_line t s) as [line s1] eqn:G. destruct (at_feof t s1); [discriminate|].
+  destruct (sec_step st line) as [st'|v'] eqn:E.
+  - exact (IH st' s1 v s' (sec_step_inv st line st' Hi E) H).
+  - inversion H; subst v' s1. exists s. rewrite G. f_equal. exact (sec_step_ret st line v Hi E). Qed.
+Corollary read_section_needs_exact_end t s v s' : read_section t s = Ret v s' ->
+  exists s0, get_line t s0 = (END_ ++ fst v ++ DASHES, s').
+Proof. unfold read_section. apply section_closed_only_by_its_own_end. unfold ps_inv, ps0. cbn. discriminate. Qed.
